@@ -415,6 +415,24 @@ def incStale (e : Inc) (a : Act) : Bool :=
 def Inc.fireAllH (e : Inc) : Inc × List Nat :=
   incLoop incPop incStale (fun e => e.ag.acts.length) incBody incBound e []
 
+/-! ### activations queued by the CALLER on the engine's own agenda (`engine.agenda_mut().add_activation(…)`, `G` cases) -/
+
+/-- `fire_all` re-validates an activation only when it carries a matched fact handle: an activation of a known rule without one is
+executed as it is -/
+def incStaleM (e : Inc) (a : Act) : Bool :=
+  match e.rules[a.rule]?, a.handle with
+  | some _, none => false
+  | _, _ => incStale e a
+
+def Inc.fireAllM (e : Inc) : Inc × List Nat :=
+  incLoop incPop incStaleM (fun e => e.ag.acts.length) incBody incBound e []
+
+/-- `Activation::new(rule, salience).with_no_loop(nl)[.with_activation_group(x)][.with_matched_fact(h)]` (created now) handed to
+`add_activation` of the engine's agenda -/
+def Inc.addAct (e : Inc) (rule : Nat) (sal : Int) (actg : Option Nat) (nl : Bool) (h : Option Nat) : Inc :=
+  { e with ag := e.ag.add { rule := rule, sal := sal, actg := actg, noLoop := nl, created := e.clock, handle := h },
+           clock := e.clock + 1 }
+
 inductive HOp where
   | insert (a b : Int)
   | update (h : Nat) (a b : Int)
